@@ -1192,3 +1192,138 @@ Section Carry.
       rewrite (h5_idem _ _ Hx). apply Hset. exact Hcx.
   Qed.
 End Carry.
+
+(* ------------------------------------------------------------------ *)
+(* audit 2: whole files, section assignment, number keys                 *)
+(* ------------------------------------------------------------------ *)
+Lemma cget_cset_same : forall c s d, cget (cset c s d) s = Some d.
+Proof.
+  induction c as [|[s' d'] c IH]; intros s d; cbn [cset cget].
+  - rewrite str_eqb_refl. reflexivity.
+  - destruct (str_eqb s s') eqn:E; cbn [cget]; rewrite E.
+    + reflexivity.
+    + apply IH.
+Qed.
+
+Definition dof (c : config) (s : str) : dict :=
+  match cget c s with Some d => d | None => [] end.
+
+Lemma dof_cset : forall c s d, dof (cset c s d) s = d.
+Proof. intros. unfold dof. rewrite cget_cset_same. reflexivity. Qed.
+
+Definition not_header (line : str) : Prop :=
+  let l := strip (before_hash line) in
+  (starts_with [91] l && ends_with [93] l) = false.
+
+Section Files.
+  Variable tbl : list row.
+  Variable feats : list str.
+
+  (* an entry before any section header is an error *)
+  Theorem load_lines_entry_before_header : forall line rest c a b,
+      not_header line ->
+      strip (before_hash line) <> [] ->
+      split_first 61 (strip (before_hash line)) = Some (a, b) ->
+      load_lines tbl feats None (line :: rest) c = CExc EOther.
+  Proof.
+    intros line rest c a b Hh Hne Hs. cbn [load_lines].
+    unfold not_header in Hh. cbv zeta in Hh.
+    destruct (strip (before_hash line)) as [|c0 l] eqn:El; [contradiction|].
+    rewrite Hh, Hs. reflexivity.
+  Qed.
+
+  (* below a header, the lines up to the next header are processed exactly
+     like the dictionary-level fold [load_section] on that section
+     (comments, blank lines and lines without "=" are skipped; repeated keys
+     are assigned in file order, so the last one wins) *)
+  Theorem load_lines_section : forall lines s c,
+      Forall not_header lines ->
+      match load_section tbl feats s lines (dof c s) with
+      | Done d' ws =>
+          exists c', load_lines tbl feats (Some s) lines c = CDone c' ws /\
+                     dof c' s = d'
+      | Exc e => load_lines tbl feats (Some s) lines c = CExc e
+      | OUnmod => load_lines tbl feats (Some s) lines c = CUnmod
+      end.
+  Proof.
+    induction lines as [|line rest IH]; intros s c Hall.
+    - cbn [load_section load_lines]. exists c. split; reflexivity.
+    - inversion Hall as [|x xs Hh Hrest]. subst.
+      cbn [load_section load_lines].
+      unfold not_header in Hh. cbv zeta in Hh.
+      unfold line_route at 1.
+      destruct (strip (before_hash line)) as [|c0 l] eqn:El.
+      + specialize (IH s c Hrest).
+        destruct (load_section tbl feats s rest (dof c s)) as [d' ws|e|];
+          exact IH.
+      + rewrite Hh.
+        destruct (split_first 61 (c0 :: l)) as [[a b]|] eqn:Es.
+        * fold (dof c s).
+          assert (line_route tbl feats s line (dof c s)
+                  = file_entry tbl feats s a b (dof c s)) as Elr.
+          { unfold line_route. rewrite El, Hh, Es. reflexivity. }
+          rewrite Elr.
+          destruct (file_entry tbl feats s a b (dof c s)) as [d1 ws1|e|];
+            try reflexivity.
+          specialize (IH s (cset c s d1) Hrest). rewrite dof_cset in IH.
+          destruct (load_section tbl feats s rest d1) as [d2 ws2|e|].
+          -- destruct IH as [c' [E1 E2]]. exists c'. rewrite E1.
+             split; [reflexivity|exact E2].
+          -- rewrite IH. reflexivity.
+          -- rewrite IH. reflexivity.
+        * specialize (IH s c Hrest).
+          destruct (load_section tbl feats s rest (dof c s)) as [d' ws|e|];
+            exact IH.
+  Qed.
+
+  (* cfg[sec] = items: the last entry is stored as the specification says,
+     whatever the section held before *)
+  Theorem cfg_setsection_last_wins : forall sec items k v c c' ws w,
+      cfg_setsection tbl feats sec (items ++ [(k, v)]) c = CDone c' ws ->
+      spec_store tbl feats (lower sec) k v = Ok (Some w) ->
+      dget (dof c' (lower sec)) (lower k) = Some w.
+  Proof.
+    intros sec items k v c c' ws w H Hs. unfold cfg_setsection in H.
+    destruct (update tbl feats (lower sec) (items ++ [(k, v)]) [])
+      as [d' ws'|e|] eqn:E; try discriminate H.
+    injection H as H _. subst c'. rewrite dof_cset.
+    apply (update_last_wins tbl feats (lower sec) items k v [] d' ws' w E Hs).
+  Qed.
+
+  (* ... and nothing of the old content survives: keys that are not assigned
+     are absent afterwards *)
+  Theorem cfg_setsection_replaces : forall sec items c c' ws k0,
+      cfg_setsection tbl feats sec items c = CDone c' ws ->
+      (forall k v, In (k, v) items -> lower k <> k0) ->
+      dget (dof c' (lower sec)) k0 = None.
+  Proof.
+    intros sec items c c' ws k0 H Hk. unfold cfg_setsection in H.
+    destruct (update tbl feats (lower sec) items []) as [d' ws'|e|] eqn:E;
+      try discriminate H.
+    injection H as H _. subst c'. rewrite dof_cset.
+    rewrite (update_frame tbl feats (lower sec) items [] d' ws' k0 E Hk).
+    reflexivity.
+  Qed.
+End Files.
+
+(* online_filter "<feat> min/max" (fnumber): what comes back from the file
+   converts to a number that compares equal (the Python type may change:
+   bool -> float, int -> numpy integer) *)
+Theorem attr_roundtrip_number : forall v w x,
+    apply CFnumber v = Ok w -> h5 w = Ok x ->
+    exists y, apply CFnumber x = Ok y /\ nf y = nf w.
+Proof.
+  intros v w x Ha Hx. cbn [apply] in *.
+  pose proof (fnumber_out v w Ha) as Hn.
+  destruct w as [s| | | | |]; try discriminate Hn.
+  destruct s; try discriminate Hn; cbn [h5] in Hx.
+  - injection Hx as Hx. subst x. eexists. split; [reflexivity|].
+    destruct b; reflexivity.
+  - destruct (int64_ok n); [|discriminate Hx]. injection Hx as Hx. subst x.
+    eexists. split; reflexivity.
+  - injection Hx as Hx. subst x. eexists. split; reflexivity.
+  - destruct (int64_ok n); [|discriminate Hx]. injection Hx as Hx. subst x.
+    eexists. split; reflexivity.
+  - injection Hx as Hx. subst x. eexists. split; reflexivity.
+  - injection Hx as Hx. subst x. eexists. split; reflexivity.
+Qed.
